@@ -360,12 +360,16 @@ def body_component(case, note):
     failed = 0
     while True:
         try:
-            comp.tagify() if failed % 2 == 0 else str(comp)
+            first = comp.tagify()
             break
         except B.FlakyError:
             failed += 1
             check(failed < 100, "harness: flaky components keep failing")
             check(S.snap(comp) == base, "a conversion that failed in user code changed the component", _diff(base, S.snap(comp)))
+    if failed:
+        # the first conversion that succeeds after failed ones carries exactly the component's metadata
+        m0 = [c for c in first.children if isinstance(c, h.MetadataNode)][2:]
+        check(sorted(repr(S.snap(m)) for m in m0) == sorted(repr(S.snap(build(x))) for x in model_metadata(r, [])), "after conversions that raised in user code, the next conversion does not carry exactly the component's metadata nodes", len(m0))
     results = []
     for i in range(case["repeat"]):
         t = comp.tagify()
